@@ -125,7 +125,11 @@ def install_wrappers():
     def _normalized_cut(self, n_neighbours):
         r = orig_cut(self, n_neighbours)
         if CTX["on"]:
-            CTX["log"].append(("cut", {"k": int(n_neighbours), "value": float(r)}))
+            # the candidate's graph as it stands (k nearest + plateau arcs) and its clusters: what the cut is a cut OF
+            nds = self.subgraph.nodes
+            CTX["log"].append(("cut", {"k": int(n_neighbours), "value": float(r),
+                                       "adj": [[int(x) for x in nd.adjacency[: int(nd.n_plateaus) + int(n_neighbours)]] for nd in nds],
+                                       "cl": [int(nd.cluster_label) for nd in nds], "nc": int(self.subgraph.n_clusters)}))
         return r
 
     UnsupervisedOPF._normalized_cut = _normalized_cut
